@@ -143,7 +143,8 @@ def run(ck):
             ncrash_reported = len([k for k in reported if k.startswith("crash:")])
             if ncrash_reported >= 2:
                 continue        # further crashes are counted, not minimised one by one
-            small = shrink(ck, exe, f, lambda x: x.startswith("CRASH")) if kind != "rewrite" and line.startswith("P ") else f
+            sig = a[:40]
+            small = shrink(ck, exe, f, lambda x: x.startswith(sig)) if kind != "rewrite" and line.startswith("P ") else f
             key = "crash:" + pattern(small)
             if key not in reported:
                 reported.add(key)
